@@ -65,6 +65,16 @@ def big_index_events(rec, iindex, tier, seed):
         if idx2 is not None:
             rec.collapsed(idx2, [5, 4, 3, 2, 1, 0])
             rec.collapsed(idx2, [2, 0])
+    # wide receivers (more columns than one byte counts) through the INDX file format and back: the largest coordinate is a
+    # column number, and it does not sit in the entry with the largest category
+    for ncols in (257, 300):
+        dense = np.zeros((3, ncols), dtype=object)
+        dense[0, 5] = 9
+        dense[1, ncols - 1] = 1
+        dense[2, 256] = 2
+        dense[2, 255] = 1
+        wide = canonical(iindex, dense, 0)
+        rec.indx_roundtrip(wide)
     return {"sizes": sizes, "constants": consts}
 
 
@@ -161,7 +171,7 @@ class Chains:
         ops = ["shift_common", "shift_common_v", "append", "update", "filtered", "copy", "reindexed_map",
                "column_stack", "set_update", "get", "items", "common_rowids", "abscissae", "eq", "to_array",
                "append", "update", "filtered", "reindexed_map"]
-        ops += ["extra", "sliced_noargs", "alias"]
+        ops += ["extra", "sliced_noargs", "alias", "indx"]
         if not big:
             ops += ["reindexed_default", "sparsity", "cube_shape"]
         if nd == 2:
@@ -346,6 +356,10 @@ class Chains:
                 src = canonical(self.iindex, np.where(dense_of(idx) == idx.common, dense_of(other), idx.common), idx.common) \
                     if idx.shape[0] and all(idx.shape) else idx
             self.rec.set_update(idx, which, [(k, np.asarray(v).tolist()) for k, v in dict.items(src)], from_index=src)
+
+    def op_indx(self, idx, U):
+        if all(isinstance(k[0], int) and k[0] >= 0 for k in dict.keys(idx)) and isinstance(idx.common, int) and idx.common >= 0:
+            return self.rec.indx_roundtrip(idx)       # the file format stores unsigned integers
 
     def op_get(self, idx, U):
         rnd = self.rnd
